@@ -9,6 +9,7 @@ RULE = ("valid DER encodings of random schemas (all leaf types, SEQUENCE/SET, ex
         "re-encoded in DER from the DECODED values with the real encoders (second phase, encoder tree rebuilt from the decoded trace) and must "
         "be octet-for-octet the consumed input. Captured values are included (capture_one + Captured re-encoding). "
         "non-trivial = accepted in DER mode.")
+CROSS = {'C04': 2000, 'C02': 2000, 'C07': 2000}   # cross streams: samples of neighbouring properties' request streams (outcomes, model <-> implementation)
 EXHAUSTIVE = {"quick": False, "thorough": False}
 EXHAUSTIVE_NOTE = {"quick": "", "thorough": ""}
 ASSUMPTIONS = ["unused bits of a BIT STRING are kept verbatim by the value, so they re-encode identically (DER's zero-unused-bits rule is not enforced by the crate and not claimed by the property)"]
